@@ -379,6 +379,9 @@ func c02QCStream(w *c02World, st *c02Streams) {
 	w.evalQC(st, w.mkQC(hq, 0, "B1"), "view-relabelled-zero", false)
 	w.evalQC(st, w.mkQC(hq, (1<<63)+5, "B1"), "view-relabelled-extreme", false)
 	w.evalQC(st, w.mkQC(hn, 1, "B2"), "view-relabelled-down", false)
+	for _, d := range c02ViewDeltas {
+		w.evalQC(st, w.mkQC(hq, 1+d, "B1"), fmt.Sprintf("view-relabelled-by-%d", d), false)
+	}
 	w.evalQC(st, w.mkQC(hn, 2, "B2"), "honest-other-block", true)
 	w.evalQC(st, w.mkQC(hq, 2, "B2"), "hash-relabelled-same-view-as-target", false)
 	w.evalQC(st, w.mkQC(hn, 2, "B2b"), "hash-relabelled-sibling", false)
